@@ -70,6 +70,13 @@ def real_checks(clsname, r, quick):
             spellings = [copy.deepcopy(cur) if isinstance(cur, dict) else cur]
             if isinstance(cur, type):
                 spellings.append(cur.__name__)
+            if isinstance(cur, (int, float, np.floating, np.integer)) and not isinstance(cur, (bool, np.bool_)):
+                # the same number written with another numeric type
+                spellings += [float(cur), np.float64(cur)]
+                if float(cur) == int(cur):
+                    spellings.append(int(cur))
+            if isinstance(cur, (bool, np.bool_)):
+                spellings.append(int(cur))
             for sp in spellings:
                 try:
                     obj.update(**{p: sp})
